@@ -188,6 +188,7 @@ def strhex2float(x, signed=True, n_word=None, n_frac=None, return_sizes=False):
 
 def str2num(x, signed=True, n_word=None, n_frac=None, base=10, return_sizes=False):
     if isinstance(x, (list, tuple)):
+        x = list(x)     # convert a copy: never write into the caller's container (tuples are accepted too)
         _signed_max = False
         _n_word_max = None
         _n_frac_max = None
